@@ -274,3 +274,34 @@ def args(call):
     if call["k"] == "CallExpr":
         return call["c"][1:]
     return call.get("c", [])
+
+
+def forward_dataflow(g, init, transfer, join, max_iter=2000):
+    """Generic forward may-analysis over the element-level CFG.
+    init: state at entry; transfer(node, state, pos) -> state (node = element
+    node dict); join(a, b) -> state.  States must be comparable with ==.
+    Returns {block id: state at block entry}."""
+    inn = {g.entry: init}
+    work = [g.entry]
+    n = 0
+    while work:
+        n += 1
+        if n > max_iter:
+            raise facts.AnalysisBroken("dataflow did not converge in %s" % g.f["id"])
+        b = work.pop()
+        st = inn[b]
+        blk = g.blocks[b]
+        for i, e in enumerate(blk["e"]):
+            node = g.idx.get(e)
+            if node is not None:
+                st = transfer(node, st, (b, i))
+        for s in g.succs(b, normal_only=True):
+            if s not in inn:
+                inn[s] = st
+                work.append(s)
+            else:
+                j = join(inn[s], st)
+                if j != inn[s]:
+                    inn[s] = j
+                    work.append(s)
+    return inn
